@@ -268,7 +268,7 @@ class UTF8String(Type):
         super(UTF8String, self).__init__(name, 'UTF8String')
 
     def encode(self, data, _separator, _indent):
-        return u'"{}"'.format(data)
+        return u'"{}"'.format(data.replace('"', '""'))
 
 
 class NumericString(Type):
@@ -277,7 +277,7 @@ class NumericString(Type):
         super(NumericString, self).__init__(name, 'NumericString')
 
     def encode(self, data, _separator, _indent):
-        return u'"{}"'.format(data)
+        return u'"{}"'.format(data.replace('"', '""'))
 
 
 class PrintableString(Type):
@@ -286,7 +286,7 @@ class PrintableString(Type):
         super(PrintableString, self).__init__(name, 'PrintableString')
 
     def encode(self, data, _separator, _indent):
-        return u'"{}"'.format(data)
+        return u'"{}"'.format(data.replace('"', '""'))
 
 
 class IA5String(Type):
@@ -295,7 +295,7 @@ class IA5String(Type):
         super(IA5String, self).__init__(name, 'IA5String')
 
     def encode(self, data, _separator, _indent):
-        return u'"{}"'.format(data)
+        return u'"{}"'.format(data.replace('"', '""'))
 
 
 class VisibleString(Type):
@@ -304,7 +304,7 @@ class VisibleString(Type):
         super(VisibleString, self).__init__(name, 'VisibleString')
 
     def encode(self, data, _separator, _indent):
-        return u'"{}"'.format(data)
+        return u'"{}"'.format(data.replace('"', '""'))
 
 
 class GeneralString(Type):
@@ -313,7 +313,7 @@ class GeneralString(Type):
         super(GeneralString, self).__init__(name, 'GeneralString')
 
     def encode(self, data, _separator, _indent):
-        return u'"{}"'.format(data)
+        return u'"{}"'.format(data.replace('"', '""'))
 
 
 class BMPString(Type):
@@ -322,7 +322,7 @@ class BMPString(Type):
         super(BMPString, self).__init__(name, 'BMPString')
 
     def encode(self, data, _separator, _indent):
-        return u'"{}"'.format(data)
+        return u'"{}"'.format(data.replace('"', '""'))
 
 
 class GraphicString(Type):
@@ -331,7 +331,7 @@ class GraphicString(Type):
         super(GraphicString, self).__init__(name, 'GraphicString')
 
     def encode(self, data, _separator, _indent):
-        return u'"{}"'.format(data)
+        return u'"{}"'.format(data.replace('"', '""'))
 
 
 class UniversalString(Type):
@@ -340,7 +340,7 @@ class UniversalString(Type):
         super(UniversalString, self).__init__(name, 'UniversalString')
 
     def encode(self, data, _separator, _indent):
-        return u'"{}"'.format(data)
+        return u'"{}"'.format(data.replace('"', '""'))
 
 
 class TeletexString(Type):
@@ -349,7 +349,7 @@ class TeletexString(Type):
         super(TeletexString, self).__init__(name, 'TeletexString')
 
     def encode(self, data, _separator, _indent):
-        return u'"{}"'.format(data)
+        return u'"{}"'.format(data.replace('"', '""'))
 
 
 class ObjectDescriptor(GraphicString):
